@@ -253,6 +253,29 @@ def sdmx_adjoint(job):
         # the convention of get_vxc_ (half / hermitian sum) is fixed by C01; here: proportionality with factor 1 or 1/2
         if not (abs(fd - ana) <= 1e-6 * (1 + abs(fd)) or abs(fd - 0.5 * ana) <= 1e-6 * (1 + abs(fd))):
             viol.append({"site": "sdmx:vxc-not-transpose-of-feature-jacobian:%s:%s" % (kind, job.get("basis", "sto-3g")), "detail": {"fd": fd, "analytic": ana}})
+        # the forward contraction is a linear operator on the FULL matrix (hermi=0 input, response densities): the features are
+        # quadratic in the density matrix, so J x = [f(P+x) - f(P-x)] / 2 exactly, and <J x, w> = c <x, B w> must hold with the
+        # SAME constant c for symmetric, non-symmetric and antisymmetric directions x (B w = get_vxc_(0, w), not symmetrised)
+        B = np.zeros((mol.nao, mol.nao))
+        gen.get_features(P, mol, coords)
+        gen.get_vxc_(B, wv.copy())
+
+        def Jx(x):
+            fp = gen.get_features(P + x, mol, coords)
+            fm = gen.get_features(P - x, mol, coords)
+            return float(((fp - fm) * 0.5 * wv).sum())
+        xs = rng.normal(size=P.shape)
+        sym, anti = 0.5 * (xs + xs.T), 0.5 * (xs - xs.T)
+        lhs_s, rhs_s = Jx(sym), float((sym * B).sum())
+        n += 1
+        if abs(rhs_s) > 1e-8 * (1 + abs(lhs_s)):
+            c = lhs_s / rhs_s
+            for nm, x in (("non-symmetric", xs), ("antisymmetric", anti)):
+                lhs, rhs = Jx(x), c * float((x * B).sum())
+                n += 1
+                if abs(lhs - rhs) > 1e-9 * (abs(lhs_s) + abs(lhs) + abs(rhs)):
+                    viol.append({"site": "sdmx:adjoint-on-%s-matrices:%s:%s" % (nm, kind, job.get("basis", "sto-3g")),
+                                 "detail": {"<Jx,w>": lhs, "c<x,Bw>": rhs, "c": c}})
     return {"id": job["id"], "viol": viol, "n": n, "rec": None}
 
 
